@@ -15,6 +15,7 @@ import (
 )
 
 type c12Case struct {
+	top   bool // threshold in the top bit-length band of a 64-bit kind: reached mostly through the overflow-to-max path
 	name  string
 	prop  func(t *rapid.T, out *string) // draws, renders into *out, fails iff beyond the threshold
 	want  string                        // rendering of the exact boundary
@@ -63,7 +64,7 @@ func c12Signed[I signedInt](kind string, gen func() *rapid.Generator[I], bits in
 			}
 			seen[name] = true
 			g := gen()
-			cs = append(cs, c12Case{name: name, want: fmt.Sprint(want), depth: 4, prop: func(t *rapid.T, out *string) {
+			cs = append(cs, c12Case{top: bits == 64 && (th >= 1<<61 || th <= -(1<<61)), name: name, want: fmt.Sprint(want), depth: 4, prop: func(t *rapid.T, out *string) {
 				x := int64(g.Draw(t, "x"))
 				*out = fmt.Sprint(x)
 				if (dir == ">=" && x >= th) || (dir == "<=" && x <= th) {
@@ -101,7 +102,7 @@ func c12Unsigned[I unsignedInt](kind string, gen func() *rapid.Generator[I], bit
 		seen[th] = true
 		th := th
 		g := gen()
-		cs = append(cs, c12Case{name: fmt.Sprintf("%s x>=%d", kind, th), want: fmt.Sprint(th), depth: 3, prop: func(t *rapid.T, out *string) {
+		cs = append(cs, c12Case{top: bits == 64 && th >= 1<<62, name: fmt.Sprintf("%s x>=%d", kind, th), want: fmt.Sprint(th), depth: 3, prop: func(t *rapid.T, out *string) {
 			x := uint64(g.Draw(t, "x"))
 			*out = fmt.Sprint(x)
 			if x >= th {
@@ -232,6 +233,9 @@ func c12Units(tier string, seed int64) []Unit {
 				ns := 6
 				if !quick {
 					ns = 200
+				}
+				if cs.top {
+					ns = 600 // such failures are found through the ~2% overflow path: enough seeds to start from it
 				}
 				for s := 0; s < ns; s++ {
 					var out string
